@@ -821,6 +821,14 @@ class _Frame:
             return f(self, *args, **kwargs)
         raise AnalysisError(f"npsym: call of `{fname[:50]}`")
 
+    def apply(self, f, args):
+        """call an interpreted value (builtin stand-in, repository function) with already evaluated arguments"""
+        if isinstance(f, FuncRef):
+            return self.I._invoke(f, list(args), {})
+        if callable(f):
+            return f(self, *args)
+        raise AnalysisError("npsym: call of a non-callable")
+
     def _kwargs(self, e):
         out = {}
         for k in e.keywords:
@@ -1043,8 +1051,10 @@ class _Frame:
             if name == "copy":
                 return list(obj)
         if isinstance(obj, str):
-            if name in ("lower", "upper", "strip", "startswith", "endswith", "format", "replace", "split"):
+            if name in ("lower", "upper", "strip", "startswith", "endswith", "format", "replace", "split", "rstrip", "lstrip", "title"):
                 return getattr(obj, name)(*args)
+            if name == "join":
+                return obj.join(str(x) for x in self.iterate(args[0], e))
         if isinstance(obj, (list, tuple)) and name == "count":
             return obj.count(args[0])
         if isinstance(obj, sp.Basic) or isinstance(obj, (int, float)):
@@ -1295,4 +1305,6 @@ BUILTINS: Dict[str, Any] = {
     "str": lambda fr, x="": str(x), "reversed": lambda fr, x: list(reversed(list(x))), "any": lambda fr, x: any(fr.truth(t) for t in x),
     "all": lambda fr, x: all(fr.truth(t) for t in x), "getattr": lambda fr, o, n, *d: getattr(o, n, *d), "hasattr": lambda fr, o, n: hasattr(o, n),
     "slice": lambda fr, *a: slice(*a), "id": lambda fr, x: id(x),
+    "map": lambda fr, f, *xs: [fr.apply(f, list(t)) for t in zip(*[fr.iterate(x, None) for x in xs])], "repr": lambda fr, x: repr(x), "round": lambda fr, x, n=0: round(x, n),
+    "ValueError": TorchMarker("ValueError"), "RuntimeError": TorchMarker("RuntimeError"), "NotImplementedError": TorchMarker("NotImplementedError"), "TypeError": TorchMarker("TypeError"),
 }
